@@ -70,3 +70,35 @@ def iv_bounds(ivs):
         b.add(lo)
         b.add(hi + 1)
     return b
+
+
+import re as _re
+
+
+def call_recorder(pattern, summarise=None):
+    """event hook recording calls whose (resolved, short) path matches `pattern`"""
+    rx = _re.compile(pattern)
+
+    def hook(interp, st, kind, info):
+        if kind != "call":
+            return
+        call = info["call"]
+        if call.path and rx.search(call.path):
+            args = []
+            for a in call.args:
+                t = call.deref(a)
+                l = tree_leaf(t)
+                if l[0] == "bytes":
+                    args.append(l[1].decode("latin1"))
+                elif l[0] in ("int", "named"):
+                    args.append(l[1])
+                elif l[0] == "term":
+                    args.append(("term", l[1]))
+                else:
+                    ad = call.deref_addr(a)
+                    args.append(("at", ad) if ad else shape(t))
+            ev = (call.path, tuple(args), tuple(call.gargs))
+            if summarise:
+                ev = summarise(call, ev)
+            st.events.append(ev)
+    return hook
